@@ -1,6 +1,8 @@
 // ---------------- spec for the issuer (C05.none prototype) ----------------
 
-enum Strat { No, Top, All, Custom(Seq<Seq<char>>) }
+// the four strategies of the API, plus a spec-only wrapper used by the C01 composition lemma: `Masked(s, ex)` is s with the
+// members named in ex kept in clear together with everything beneath them (the always-visible top-level members)
+enum Strat { No, Top, All, Custom(Seq<Seq<char>>), Masked(Box<Strat>, Set<Seq<char>>) }
 uninterp spec fn index_key_spec(i: int) -> Seq<char>;
 // Custom strategy: descending into member / element `key` keeps the paths that continue below it:
 // "key.rest" -> "rest", "key[i]..." -> "[i]..."; everything else is dropped (a path naming no claim has no effect)
@@ -16,11 +18,13 @@ spec fn next_paths_spec(paths: Seq<Seq<char>>, key: Seq<char>) -> Seq<Seq<char>>
         match next_path1(paths.last(), key) { Some(q) => r.push(q), None => r }
     }
 }
-spec fn sd_spec(s: Strat, key: Seq<char>) -> bool {
-    match s { Strat::No => false, Strat::Top => true, Strat::All => true, Strat::Custom(p) => p.contains(key) }
+spec fn sd_spec(s: Strat, key: Seq<char>) -> bool decreases s {
+    match s { Strat::No => false, Strat::Top => true, Strat::All => true, Strat::Custom(p) => p.contains(key),
+              Strat::Masked(b, ex) => !ex.contains(key) && sd_spec(*b, key) }
 }
-spec fn next_spec(s: Strat, key: Seq<char>) -> Strat {
-    match s { Strat::No => Strat::No, Strat::Top => Strat::No, Strat::All => Strat::All, Strat::Custom(p) => Strat::Custom(next_paths_spec(p, key)) }
+spec fn next_spec(s: Strat, key: Seq<char>) -> Strat decreases s {
+    match s { Strat::No => Strat::No, Strat::Top => Strat::No, Strat::All => Strat::All, Strat::Custom(p) => Strat::Custom(next_paths_spec(p, key)),
+              Strat::Masked(b, ex) => if ex.contains(key) { Strat::No } else { next_spec(*b, key) } }
 }
 
 spec fn wf_j(j: J) -> bool decreases j {
